@@ -25,10 +25,11 @@ SPEC = dict(
     manifest=dict(
         text="Lean theorems over all requests/responses: the upstream request built by the handler has the same method, URL "
              "(configured address + path + query, splitting back to the same path and query), body, and for every header name the same "
-             "RFC 7230 field value (lines joined by ','), with no other header than X-Forwarded-For added; the client response has the "
-             "status, body and per-name field values of the response the HTTP client returned, plus only the middleware's two preset "
-             "headers when the upstream did not send them. Four places where the code does not keep the property's promise are stated "
-             "as propositions and refuted with witnesses (repeated X-Forwarded-For lines, followed redirects, Set-Cookie lines joined, "
+             "RFC 7230 field value (lines joined by ','), with no other header than X-Forwarded-For added, and X-Forwarded-For = every "
+             "line the client sent + the remote address; the client response has the status, body and, line for line, every header "
+             "(Set-Cookie included) of the response the HTTP client returned, plus only the middleware's two preset "
+             "headers when the upstream did not send them. Two places where the code does not keep the property's promise are stated "
+             "as propositions and refuted with witnesses (upstream redirects followed by the proxy's HTTP client, "
              "unclean paths answered 301 by the mux). Model tied to route/proxy.go + LnS by sending generated requests over TCP through "
              "the real mux/middleware/handler to a scripted upstream and comparing what the upstream received and what the client got with "
              "the model, plus a monitor of the property on those observations alone.",
